@@ -136,7 +136,12 @@ impl Prop for C09T {
         for _ in 0..n_ops {
             let roll = rng.below(12);
             let unit = if roll < query_bias {
-                queue_unit(&mut rng, &m, &ctx)
+                // one in six queue queries is itself faulty (surplus / too many parameters):
+                // it must be rejected without touching the queue it asks about
+                match queue_unit(&mut rng, m, &ctx) {
+                    Some(u) if rng.chance(1, 6) => gen::make_faulty(&mut rng, m, &ctx, &u, fault::ARITY).or(Some(u)),
+                    other => other,
+                }
             } else {
                 // a valid user *command* (user queries are left out: their responses are not this property's)
                 let mut u = None;
